@@ -6,11 +6,12 @@ import gen
 from common import circ_from_json, circ_to_json, err_name, realize
 
 RULE = ('circuits over the supported gate set (NOT, AND, OR, XOR, NAND, NOR, NXOR, GT, LT, GEQ, LEQ; 2..5 inputs, up to 12 gates, 1..3 '
-        'outputs incl. repeated outputs and outputs that are inputs, dead logic, correlated cut leaves) x bases AIG/XAIG/FULL x '
+        'outputs incl. repeated outputs and outputs that are inputs, dead logic, correlated cut leaves, cut leaves that read gates of '
+        'their own cone, cones sharing leaves, a corpus of past failures) x bases AIG/XAIG/FULL x '
         'parameter settings (max_subcircuit_size, cut_size, cut_limit, time limit) x cut families (canonical k-feasible family of the shim '
         'enumerator, random sub-families, shuffled orders); the real minimize_subcircuits is run and its result compared with the '
         'argument on all input assignments; pattern primitives are compared with the Lean model')
-ASSUMPTIONS = ['gates of arity <= 2 of the supported types (others must raise UnsupportedOperationError)',
+ASSUMPTIONS = ['gates of the supported types, n-ary ones with up to four operands (others must raise UnsupportedOperationError)',
                'cut families: subsets/reorderings of the k-feasible cuts (every node keeps its trivial cut)']
 TRUSTED = ['mockturtle_wrapper is not buildable in the sandbox: harness/shims/mockturtle_wrapper.py enumerates k-feasible cuts',
            'pysat shim solver (DPLL / z3, models re-checked)', 'search oracle: truth tables through the real evaluator (C01)']
@@ -99,14 +100,89 @@ def gen_nary_cone(rng, k):
     return realize(j), rng.choice(['AIG', 'XAIG', 'FULL']), params, 'all', 0
 
 
+def gen_leaf_reads_cone(rng, k):
+    """a cut whose leaves read gates of the cone they bound: p1, p2 depend on (a, b) only, the leaves L1, L2 read them
+    together with inputs outside the cut, and the root reads v(a, b), L1, L2 — the cut {a, b, L1, L2} of the root has
+    p1, p2 in its cone although only leaves read them.  No dead logic, every gate is observed."""
+    nary = ['AND', 'OR', 'XOR', 'NAND', 'NOR', 'NXOR']
+    t = lambda: rng.choice(BIN)
+    wide = rng.random() < 0.5
+    ins = ['a', 'b', 'c', 'd'] + (['e', 'f'] if wide else [])
+    gates = [[i, 'INPUT', []] for i in ins]
+    gates += [['p1', t(), ['a', 'b']], ['p2', t(), ['a', 'b']], ['v', t(), ['a', 'b']]]
+    if wide:
+        gates += [['L1', rng.choice(nary), ['p1', 'c', 'e']], ['L2', rng.choice(nary), ['p2', 'd', 'f']]]
+    else:
+        gates += [['L1', t(), ['p1', 'c']], ['L2', t(), ['p2', 'd']]]
+    if rng.random() < 0.5:
+        gates += [['o', rng.choice(nary), ['v', 'L1', 'L2']]]
+    else:
+        gates += [['w', t(), ['v', 'L1']], ['o', t(), ['w', 'L2']]]
+    if rng.random() < 0.4:
+        rng.shuffle(ins)
+    j = {'gates': gates, 'inputs': ins, 'outputs': ['o', 'L1', 'L2'][:rng.choice([1, 3, 3])], 'blocks': []}
+    params = {'max_subcircuit_size': rng.choice([9, 9, 4]), 'cut_size': rng.choice([4, 4, 3, 5]), 'cut_limit': 25, 'solver_time_limit_sec': 0}
+    return realize(j), rng.choice(['AIG', 'XAIG', 'FULL']), params, rng.choice(['all', 'all', 'subset', 'shuffle']), rng.getrandbits(30)
+
+
+def gen_stale_cone(rng, k):
+    """two cones over shared leaves: one is replaced by fewer gates (its old gates vanish), the other still lists them"""
+    t = lambda: rng.choice(BIN)
+    ins = ['a', 'b', 'c']
+    blocks = [[['n', 'NOT', ['a']], ['m', t(), ['b', rng.choice(['b', 'c'])]], ['o1', t(), ['n', 'm']]],
+              [['t1', t(), ['a', 'c']], ['t2', t(), ['a', 'c']], ['o2', t(), ['t1', 't2']]]]
+    if rng.random() < 0.5:
+        blocks[1].append(['t3', t(), ['t1', 'n']])
+    rng.shuffle(blocks)
+    gates = [[i, 'INPUT', []] for i in ins] + blocks[0] + blocks[1]
+    outs = ['o1', 'o2'] + (['t3'] if any(g[0] == 't3' for g in gates) else [])
+    rng.shuffle(outs)
+    if rng.random() < 0.5:
+        rng.shuffle(ins)
+    j = {'gates': gates, 'inputs': ins, 'outputs': outs, 'blocks': []}
+    params = {'max_subcircuit_size': 9, 'cut_size': 5, 'cut_limit': 25, 'solver_time_limit_sec': 0}
+    return realize(j), rng.choice(['AIG', 'XAIG', 'FULL']), params, rng.choice(['all', 'all', 'shuffle']), rng.getrandbits(30)
+
+
+def directed_cases():
+    """inputs on which the pinned tree raised an internal error (no dead logic, no equivalent gates); kept as a corpus"""
+    G = lambda l, t, *ops: [l, t, list(ops)]
+    I = lambda *ls: [[l, 'INPUT', []] for l in ls]
+    dflt = {'max_subcircuit_size': 9, 'cut_size': 5, 'cut_limit': 25, 'solver_time_limit_sec': 0}
+    out = []
+    stale = {'gates': I('a', 'b', 'c') + [G('n', 'NOT', 'a'), G('m', 'NAND', 'b', 'b'), G('o1', 'OR', 'n', 'm'), G('t1', 'OR', 'a', 'c'),
+                                         G('t2', 'NAND', 'a', 'c'), G('o2', 'AND', 't1', 't2')],
+             'inputs': ['a', 'b', 'c'], 'outputs': ['o1', 'o2'], 'blocks': []}
+    over = {'gates': I('a', 'b', 'c', 'd', 'e', 'f') + [G('p1', 'AND', 'a', 'b'), G('p2', 'OR', 'a', 'b'), G('v', 'XOR', 'a', 'b'),
+                                                       G('L1', 'XOR', 'p1', 'c', 'e'), G('L2', 'XOR', 'p2', 'd', 'f'), G('o', 'AND', 'v', 'L1', 'L2')],
+            'inputs': ['a', 'b', 'c', 'd', 'e', 'f'], 'outputs': ['o', 'L1', 'L2'], 'blocks': []}
+    leaf = {'gates': I('x0', 'x1', 'x2', 'x3') + [G('g0', 'XOR', 'x2', 'x0', 'x1'), G('g1', 'AND', 'g0', 'x3'), G('g2', 'NOR', 'x0', 'x1'),
+                                                 G('g3', 'LEQ', 'x1', 'g2'), G('g4', 'NXOR', 'x2', 'g2', 'g3', 'x3'), G('g5', 'NAND', 'g4', 'g1'),
+                                                 G('g6', 'LEQ', 'g4', 'g3')],
+            'inputs': ['x0', 'x1', 'x2', 'x3'], 'outputs': ['g6', 'g5'], 'blocks': []}
+    fam_c = {'gates': I('x0', 'x1', 'x2', 'x3') + [G('g1', 'NXOR', 'x3', 'x2'), G('g2', 'NXOR', 'x1', 'g1'), G('g3', 'AND', 'x2', 'g2'),
+                                                  G('g4', 'NAND', 'g1', 'g3')],
+             'inputs': ['x0', 'x1', 'x2', 'x3'], 'outputs': ['g2', 'g4', 'g3'], 'blocks': []}
+    fam = {'x0': [['x0']], 'x1': [['x1']], 'x2': [['x2']], 'x3': [['x3']], 'g1': [['x2', 'x3'], ['g1']], 'g2': [['g1', 'x1'], ['g2']],
+           'g3': [['g2', 'x2'], ['g3']], 'g4': [['g1', 'g3'], ['g2', 'x2', 'x3'], ['g4']]}
+    for basis in ('AIG', 'XAIG', 'FULL'):
+        out.append((realize(stale), basis, dflt, 'all', 0))
+        out.append((realize(over), basis, dict(dflt, cut_size=4), 'all', 0))
+        out.append((realize(leaf), basis, dict(dflt, cut_size=3, max_subcircuit_size=3), 'all', 0))
+        out.append((realize(fam_c), basis, dflt, 'family', fam))
+    return out
+
+
 def run_minimize(cj, basis, params, cutmode, cutseed, validate):
     import random
     import mockturtle_wrapper as mw
     from cirbo.minimization.subcircuit import minimize_subcircuits
 
-    r = random.Random(cutseed)
+    r = random.Random(cutseed if cutmode != 'family' else 0)
 
     def hook(res):
+        if cutmode == 'family':
+            return {n: [list(c) for c in cs] for n, cs in cutseed.items()}
         out = {}
         for n, cuts in res.items():
             cuts = list(cuts)
@@ -119,7 +195,7 @@ def run_minimize(cj, basis, params, cutmode, cutseed, validate):
     def cut_filter(node, found):
         # an admissible sub-family: like cut_limit, a node keeps some of its cuts and fan-outs merge only kept ones
         return [c for c in found if r.random() < 0.65]
-    mw.CUT_HOOK = hook if cutmode in ('subset', 'shuffle') else None
+    mw.CUT_HOOK = hook if cutmode in ('subset', 'shuffle', 'family') else None
     mw.CUT_FILTER = cut_filter if cutmode == 'subset' else None
     # record every splice the driver performs (monkeypatch in this process only; no source hook)
     from cirbo.core.circuit import Circuit
@@ -285,6 +361,20 @@ def correspondence(ctx):
 
 def search(ctx):
     rng = ctx.rng('search')
+    for cj, basis, params, cutmode, cutseed in directed_cases():
+        ctx.case(json.dumps(['directed', cj['gates'], cj['outputs'], basis, cutmode]))
+        ctx.count('directed_corpus')
+        check_case(ctx, cj, basis, params, cutmode, cutseed)
+    for k in range(ctx.scale(60, 1500)):
+        cj, basis, params, cutmode, cutseed = gen_leaf_reads_cone(rng, k)
+        ctx.case(json.dumps(['leafcone', cj['gates'], cj['inputs'], cj['outputs'], basis, params, cutmode, cutseed]))
+        ctx.count('leaf_reads_cone')
+        check_case(ctx, cj, basis, params, cutmode, cutseed)
+    for k in range(ctx.scale(40, 800)):
+        cj, basis, params, cutmode, cutseed = gen_stale_cone(rng, k)
+        ctx.case(json.dumps(['stale', cj['gates'], cj['inputs'], cj['outputs'], basis, cutmode, cutseed]))
+        ctx.count('stale_cone')
+        check_case(ctx, cj, basis, params, cutmode, cutseed)
     for k in range(ctx.scale(60, 600)):
         cj, basis, params, cutmode, cutseed = gen_correlated(rng, k)
         ctx.case(json.dumps(['corr', cj['gates'], cj['outputs'], basis]))
